@@ -45,6 +45,8 @@ def make_line(rng, v, seg, kind, toks, ec):
         cur = line.count(f)
         extra = rng.randint(1, 4)
         pad = [''] * (top - cur) + [toks.next() for _ in range(extra)]
+        if rng.random() < 0.5:
+            pad[-1] = toks.next() + '^^' + toks.next() + '^^^' + toks.next()      # components with gaps, beyond the table
         return line + f + f.join(pad)
     if kind == 'gap':
         gaps = tables.gap_numbers(v, seg)
@@ -157,6 +159,12 @@ def compare(text, out, ec):
         if l1 != l2:
             return 'leaves', {'segment': n1, 'in': l1, 'out': l2,
                               'in_positions': [p for p, _ in er7ref.leaves(f1)]}
+        # same leaves in the same order: each is still at the same repetition / component / sub-component of its field (an
+        # empty component dropped from `A^^C` moves C)
+        p1 = [p[1:] for p, _ in er7ref.leaves(f1[2:] if n1 == 'MSH' else f1)]
+        p2 = [p[1:] for p, _ in er7ref.leaves(f2[2:] if n2 == 'MSH' else f2)]
+        if p1 != p2:
+            return 'moved', {'segment': n1, 'in': l1, 'in_places': p1, 'out_places': p2}
     return None
 
 
@@ -170,6 +178,8 @@ def classify(v, kind, d, fg, instruct):
             return 'segment-order-changed', None
         return 'segment-lost-or-duplicated', None
     seg = d['segment']
+    if kind == 'moved':
+        return 'leaf-moved-within-its-field', '%s|%s' % (v, seg)
     if sorted(d['in']) == sorted(d['out']):
         gaps = tables.gap_numbers(v, seg) if tables.segments(v).get(seg) else []
         if gaps and any(p[0] in gaps for p in d['in_positions']):
